@@ -314,6 +314,14 @@ def analytic(a: int, t: int, p: int, l: int) -> bool:
                 return 'not-a-single-u3', 0.0
             if which.startswith('zxzxz') and circ.num_operations != 5:
                 return 'not-five-gates', 0.0
+            if which.startswith('zxzxz'):
+                # only gates of the requested target set: Z = U1 iff always_use_u1 (else RZ), X = RX iff always_use_rx
+                # (else SX) - with the default PassData gate set, which holds neither RX nor U1
+                z = 'U1Gate' if which in ('zxzxz-u1', 'zxzxz-rx-u1') else 'RZGate'
+                x = 'RXGate' if which in ('zxzxz-rx', 'zxzxz-rx-u1') else 'SqrtXGate'
+                names = [type(op.gate).__name__ for op in circ]
+                if names != [z, x, z, x, z]:
+                    return 'wrong-target-gates:%s' % '-'.join(names), 0.0
         k = np.unravel_index(np.argmax(np.abs(U)), U.shape)
         ph = V[k] / U[k]
         err = float(np.abs(V - ph * U).max())
@@ -360,4 +368,102 @@ def obligations(tier: str) -> list[dict]:
     for which in ('u3', 'zxzxz', 'zxzxz-rx', 'zxzxz-u1', 'zxzxz-rx-u1', 'calc_params'):
         obs.append({'name': 'A/%s' % which, 'func': 'analytic', 'timeout': 250 if tier == 'quick' else 2400,
                     'shard': {'which': which, 'na': 1 if tier == 'quick' else 7}})
+    return obs
+
+
+# ---- (M) multiplexed-gate decomposition, all real angles (E2) -------------------------------
+
+def check_mgd(shard: dict, timeout: float) -> dict:
+    """MGDPass on one MPRY/MPRZ gate (width n, target t, location loc) with SYMBOLIC angles: the unitary of
+    the decomposed circuit equals the gate's own unitary for all real parameter vectors (z3, QF_NRA)."""
+    import harness.C18 as c18
+    c18._setup()
+    import numpy as np
+    import sympy as sp
+    from bqskit.compiler.passdata import PassData
+    from bqskit.ir.circuit import Circuit
+    from bqskit.ir.gates import MPRYGate, MPRZGate
+    from bqskit.passes.synthesis.qsd import MGDPass
+    import bqskit.passes.synthesis.qsd as qsdmod
+    import harness.C06 as c06
+    from vf import nra, sym
+    n, t, loc, W, twice, ry = shard['n'], shard['t'], shard['loc'], shard['W'], shard['twice'], shard['ry']
+    G = (MPRYGate if ry else MPRZGate)(n, t)
+    ts = sym.symbols(G.num_params)
+    syms = [x.e for x in ts]
+    res: dict = {'status': 'discharged', 'queries': 0, 'solver_s': 0.0, 'detail': ''}
+    circ = Circuit(W)
+    circ.append_gate(G, loc, ts)
+    mods = c06._circuit_modules() + c18._gate_modules(G) + [qsdmod]
+    import bqskit.ir.gates.parameterized.mpry as m1
+    import bqskit.ir.gates.parameterized.mprz as m2
+    mods += [m1, m2]
+    mods = sym.patch_np(*mods)
+    try:
+        with sym.sym_mode(), c18.native_model():
+            before = sym.to_matrix(circ.get_unitary())
+            data = PassData(Circuit(W))
+            _drive(MGDPass(decompose_twice=bool(twice)).run(circ, data))
+            left = [op for op in circ if isinstance(op.gate, (MPRYGate, MPRZGate)) and op.num_qudits == n]
+            if left:
+                res['status'] = 'refuted'
+                res['cex'] = {'mgd': shard, 'why': 'gate not decomposed'}
+                return res
+            after = sym.to_matrix(circ.get_unitary())
+    finally:
+        sym.unpatch_np(*mods)
+    r = nra.decide_zero(nra.matrix_entries(after - before), syms, timeout * 0.8)
+    res['queries'] += r.get('queries', 0)
+    res['solver_s'] = r.get('solver_s', 0.0)
+    res['status'] = r['status']
+    res['detail'] = r.get('detail', '')
+    if r['status'] == 'refuted':
+        res['cex'] = {'mgd': shard, 'params': r['cex']['params']}
+    return res
+
+
+_old_replay = replay
+
+
+def replay(shard: dict, cex: dict) -> tuple[bool, str]:     # noqa: F811
+    if 'mgd' in cex:
+        import numpy as np
+        from bqskit.compiler.passdata import PassData
+        from bqskit.ir.circuit import Circuit
+        from bqskit.ir.gates import MPRYGate, MPRZGate
+        from bqskit.passes.synthesis.qsd import MGDPass
+        sh = cex['mgd']
+        G = (MPRYGate if sh['ry'] else MPRZGate)(sh['n'], sh['t'])
+        p = [float(cex.get('params', {}).get('t%d' % i, 0.3 + 0.37 * i)) for i in range(G.num_params)]
+        circ = Circuit(sh['W'])
+        circ.append_gate(G, sh['loc'], p)
+        U = circ.get_unitary().numpy
+        _drive(MGDPass(decompose_twice=bool(sh['twice'])).run(circ, PassData(circ)))
+        V = circ.get_unitary().numpy
+        d = float(np.abs(U - V).max())
+        return d > 1e-7, 'MGDPass on %r params %r: |before - after| = %g' % (sh, p, d)
+    return _old_replay(shard, cex)
+
+
+_old_obligations = obligations
+
+
+def obligations(tier: str) -> list[dict]:     # noqa: F811
+    obs = _old_obligations(tier)
+    import itertools
+    for ry in (1, 0):
+        for n in ((2, 3) if tier == 'quick' else (2, 3, 4)):
+            for t in range(n):
+                locs = [list(range(n))]
+                if n >= 2:
+                    locs.append(list(reversed(range(1, n + 1))))      # scrambled, shifted location on a wider circuit
+                if tier != 'quick' and n == 3:
+                    locs += [list(p) for p in itertools.permutations(range(3))][1:4]
+                for loc in locs:
+                    for twice in ((0, 1) if (n >= 3) else (0,)):
+                        W = max(loc) + 1
+                        obs.append({'name': 'M/%s%d/t%d/loc%s/twice%d' % ('mpry' if ry else 'mprz', n, t,
+                                                                           ''.join(map(str, loc)), twice),
+                                    'func': 'check_mgd', 'kind': 'direct', 'timeout': 300 if tier == 'quick' else 1200,
+                                    'shard': {'n': n, 't': t, 'loc': loc, 'W': W, 'twice': twice, 'ry': ry}})
     return obs
